@@ -182,23 +182,50 @@ class Ctx:
 
     # ------------------------------------------------------------------ build
     def sync_build(self):
+        """Regenerate coq/generated from the repository and rebuild stale .vo files.
+        Locking: a check holds a SHARED lock on build/.lock for its whole life (its case files are compiled
+        against the .vo files) and upgrades to an EXCLUSIVE lock only when something must be regenerated or
+        rebuilt, so concurrent checks of the same tree do not serialise and a rebuild never happens under the
+        feet of another check's coqc runs."""
         import translate
         os.makedirs(BUILD, exist_ok=True)
-        lock = open(os.path.join(BUILD, ".lock"), "w")
-        fcntl.flock(lock, fcntl.LOCK_EX)
-        try:
+        self._lock = open(os.path.join(BUILD, ".lock"), "w")
+        gen_dir = os.path.join(COQ, "generated")
+
+        def regenerate(write):
             try:
-                changed, self.consts = translate.generate(REPO, os.path.join(COQ, "generated"))
+                return translate.generate(REPO, gen_dir, write=write)
             except translate.TranslatorError as e:
-                self.translator_error = str(e)
-                self.broken.append("translator obligation: " + str(e))
-                changed, self.consts = [], {}
+                return None, str(e)
             except Exception as e:  # source no longer parses etc.
-                self.translator_error = repr(e)
-                self.broken.append("translator obligation: " + repr(e))
-                changed, self.consts = [], {}
-            if changed:
-                log("regenerated from /repo:", changed)
+                return None, repr(e)
+
+        def up_to_date():
+            mk = os.path.join(COQ, "Makefile")
+            if write_coqproject() or not os.path.exists(mk):
+                return False
+            rc, out, err = run(["make", "-q"], 300, cwd=COQ)
+            return rc == 0
+
+        fcntl.flock(self._lock, fcntl.LOCK_SH)
+        changed, info = regenerate(write=False)
+        if changed is None:
+            self.translator_error = info
+            self.broken.append("translator obligation: " + info)
+            changed, self.consts = [], {}
+        else:
+            self.consts = info
+        if not changed and up_to_date():
+            self.build_s = 0.0
+            return
+        # something to do: exclusive section
+        fcntl.flock(self._lock, fcntl.LOCK_UN)
+        fcntl.flock(self._lock, fcntl.LOCK_EX)
+        try:
+            if self.translator_error is None:
+                changed, info = regenerate(write=True)
+                if changed:
+                    log("regenerated from the repository:", changed)
             mk = os.path.join(COQ, "Makefile")
             if write_coqproject() or not os.path.exists(mk):
                 rc, out, err = run(["coq_makefile", "-f", "_CoqProject", "-o", "Makefile"], 120, cwd=COQ)
@@ -213,8 +240,7 @@ class Ctx:
                 self.build_log = (out + err)[-4000:]
                 log("theory build failed for:", self.build_failed)
         finally:
-            fcntl.flock(lock, fcntl.LOCK_UN)
-            lock.close()
+            fcntl.flock(self._lock, fcntl.LOCK_SH)     # keep a shared lock until the process exits
 
     # ------------------------------------------------------------------ proof obligations
     def compile_props(self, allowed_axioms=frozenset()):
